@@ -2,6 +2,8 @@
 //!  (an E1 round trip "expression printer -> expr::parse_expr" was tried and dropped: the printer does not print symbol
 //!   types, which parse_expr needs on a symbol's first occurrence - there is no round-trip contract to check)
 //!  E2  count_expr_uses agrees with the definition in spec/UseCount.tla on exported DAGs.
+//!  E3  TypeCheck::type_check / get_type agree with the typing of spec/Expr.tla on every node the builders produce from
+//!      the descriptors of spec/TypeCkGen.tla (operators over leaves of every kind and width, well-typed or not).
 use crate::ex::*;
 use crate::{flag, flag_u};
 
@@ -50,4 +52,49 @@ pub fn run(args: &[String]) {
     out.finish();
     uout.finish();
     println!("{}", json!({"records": n, "uses_records": m}));
+}
+
+/// E3: one record per descriptor {op, ts: [leaf types], by, hi, lo}
+pub fn run_typeck(args: &[String]) {
+    let mut out = Out::new(flag(args, "--out").expect("--out"));
+    let mut counts = std::collections::BTreeMap::<String, u64>::new();
+    for (i, d) in read_ndjson(flag(args, "--in").expect("--in")).iter().enumerate() {
+        let op = d["op"].as_str().unwrap();
+        let ts = d["ts"].as_array().unwrap();
+        let mut nodes: Vec<J> = vec![];
+        for (k, t) in ts.iter().enumerate() {
+            let nm = format!("s{k}");
+            if t["k"] == "bv" {
+                nodes.push(json!({"op":"bvsym","name":nm,"w":t["w"],"bits":[],"a":[],"hi":0,"lo":0,"by":0,"iw":0,"dw":0,"ow":0}));
+            } else {
+                nodes.push(json!({"op":"arrsym","name":nm,"w":0,"bits":[],"a":[],"hi":0,"lo":0,"by":0,"iw":t["iw"],"dw":t["dw"],"ow":0}));
+            }
+        }
+        let a: Vec<usize> = (1..=ts.len()).collect();
+        // arrconst: the index width is by + 1
+        let iw = if op == "arrconst" { d["by"].as_u64().unwrap() + 1 } else { 0 };
+        nodes.push(json!({"op":op,"name":"","w":0,"bits":[],"a":a,"hi":d["hi"],"lo":d["lo"],"by":d["by"],"iw":iw,"dw":0,"ow":0}));
+        let mut ctx = Context::default();
+        let built = guarded(|| import(&mut ctx, &J::Array(nodes.clone())));
+        let id = format!("t{i}:{op}");
+        let rec = match built {
+            Err((loc, msg)) => json!({"ev":"TypeCk","id":id,"nodes":[],"root":0,"tc":"panic","t":{},"gt":{},"loc":loc,"msg":msg}),
+            Ok(refs) => {
+                let root = *refs.last().unwrap();
+                let (en, ix) = export_many(&ctx, &[root]);
+                let tc = guarded(|| root.type_check(&ctx));
+                let gt = guarded(|| root.get_type(&ctx));
+                match (tc, gt) {
+                    (Ok(Ok(t)), Ok(g)) => json!({"ev":"TypeCk","id":id,"nodes":en,"root":ix[0],"tc":"ok","t":type_json(t),"gt":type_json(g),"loc":"","msg":""}),
+                    (Ok(Err(e)), _) => json!({"ev":"TypeCk","id":id,"nodes":en,"root":ix[0],"tc":"err","t":{},"gt":{},"loc":"","msg":e.get_msg()}),
+                    (Err((loc, msg)), _) | (_, Err((loc, msg))) => json!({"ev":"TypeCk","id":id,"nodes":en,"root":ix[0],"tc":"panic","t":{},"gt":{},"loc":loc,"msg":msg}),
+                }
+            }
+        };
+        *counts.entry(rec["tc"].as_str().unwrap().to_string()).or_insert(0) += 1;
+        out.put(&rec);
+    }
+    let n = out.n;
+    out.finish();
+    println!("{}", json!({"records": n, "outcomes": counts}));
 }
